@@ -6,4 +6,7 @@ def main : IO UInt32 :=
   runDriver (fun family params lines =>
     match family with
     | "c07" => C07.check params lines
+    -- the timer goroutines themselves (pkg/timer on the mock clock, family c13): after the cancellation — also one that
+    -- races a clock jump — every one of them is gone
+    | "c13" => C07.checkTimerGoroutines params lines
     | _ => { bad := [s!"unknown family {family}"] })
